@@ -520,6 +520,10 @@ class C13(Check):
         if trees and out['tree'] is None:
             out['tree'] = sorted((canon.canon_elem(t) for t in trees), key=repr)[:4]
         out['opens'] = max(peer.opens.values()) if peer.opens else 0
+        if out['tree'] is not None:
+            # the scratch tree's own path (it contains a process id) is not part of the observation
+            import json as _json
+            out['tree'] = _json.loads(_json.dumps(out['tree'], default=repr).replace(world, '{W}'))
         return out
 
     def shrink(self, case):
